@@ -281,4 +281,17 @@ theorem reaccept_usable (L : ListenerParams) (hL : L.Good) (earlierClosed : Bool
 /-- Witness: a "get or create" registration hands the closed listener out again -/
 theorem get_or_create_witness : reacceptUsable ⟨false⟩ true = false := by decide
 
+/-- **Every transport of a brokered connection is announced**: however many times gRPC connects again for the connection
+dialled for `id`, each of its streams reaches the accepting side as a stream for `id` — never as a main-service stream. -/
+theorem every_transport_announced (D : DialerParams) (hD : D.Good) (id transports : Nat) :
+    ∀ t ∈ transportTags D id transports, t = Tag.brokered id := by
+  intro t ht
+  simp only [transportTags, List.mem_map, List.mem_range] at ht
+  obtain ⟨k, _, hk⟩ := ht
+  simp [show D.knockPerTransport = true from hD] at hk
+  exact hk.symm
+
+/-- Witness: with the knock sent once by `Dial`, the second transport arrives unannounced and goes to the main listener -/
+theorem knock_once_witness : transportTags ⟨false⟩ 7 2 = [Tag.brokered 7, Tag.main] := by decide
+
 end GoPlugin.Props.C08
